@@ -55,7 +55,7 @@ const OPTIONAL_CHILDREN: [(&str, &str); 30] = [
 
 /// "shadow" insertions: (position, text) — a foreign twin directly BEFORE a standard element (same parent, same
 /// local name, same type), or a foreign optional child as FIRST child of a structure
-fn shadow_insertion(rng: &mut Rng, xml: &str) -> Option<(usize, String, &'static str)> {
+fn shadow_insertion(rng: &mut Rng, xml: &str, prefer_rep: bool) -> Option<(usize, String, &'static str)> {
     let mut twins: Vec<(usize, String, String)> = vec![]; // line start, tag, type
     let mut first_child: Vec<(usize, String)> = vec![]; // position after an opening Structure line, parent tag
     let mut pos = 0usize;
@@ -80,6 +80,15 @@ fn shadow_insertion(rng: &mut Rng, xml: &str) -> Option<(usize, String, &'static
         }
         pos += line.len();
         line_no += 1;
+    }
+    if prefer_rep {
+        // an image representation gets a foreign blob child (mask or image data) in front of its own
+        let reps: Vec<&(usize, String)> = first_child.iter().filter(|f| f.1.ends_with("Representation")).collect();
+        if !reps.is_empty() {
+            let f = *rng.pick(&reps);
+            let (l, ty) = *rng.pick(&[("imageMask", "Blob"), ("jpegImage", "Blob"), ("pngImage", "Blob"), ("imageMask", "Blob")]);
+            return Some((f.0, foreign_like(l, ty), "element-optional-child"));
+        }
     }
     if rng.chance(1, 2) && !twins.is_empty() {
         // prefer the rarer kinds (Blob, Structure) over the many String/Float leaves
@@ -357,8 +366,13 @@ pub fn generate(sink: &mut Sink, seed: u64, thorough: bool) {
                 let at = if !float_pts.is_empty() && rng.chance(1, 2) { *rng.pick(&float_pts) } else { *rng.pick(&pts) };
                 (at, format!(" fx:{a}=\"{v}\""), "attribute")
             }
+        } else if xml.contains("Representation type=") && rng.chance(1, 3) {
+            match shadow_insertion(&mut rng, &xml, true) {
+                Some(x) => x,
+                None => continue,
+            }
         } else if rng.chance(1, 2) {
-            match shadow_insertion(&mut rng, &xml) {
+            match shadow_insertion(&mut rng, &xml, false) {
                 Some(x) => x,
                 None => continue,
             }
